@@ -21,6 +21,7 @@ from ..sym import Explorer, N, is_const, show, walk
 from ..wrules import model, w2
 from .c06 import REF_READ, REF_WIDTH, arms_table
 
+ANCHOR_RE = [r"model_file_operations::.*::(read|write)_\w+$"]  # typed codecs are paired by computed name (read_X <-> write_X)
 TECHNIQUE = "static analysis: read/write symmetry of the binrw declarations; size-formula terms read off the MIR vs wire sizes; sibling agreement of the reader's and writer's (usage, type) switch nests; derives-from obligations on the writer's seeks"
 TRUSTED = ["pv/wire.py binrw model", "rustc nightly MIR", "encoder/decoder pairing table embedded in this rule"]
 
